@@ -25,8 +25,8 @@ ASSUMPTIONS = [
     "termination is decided on logical steps (sys.monitoring PY_START budget), wall-clock only as watchdog",
 ]
 PLAN = {"quick": dict(topologies=1600, D=12), "thorough": dict(topologies=12000, D=150)}
-FLOORS = {"quick": {"constructions": 10000, "depth_values_checked": 60000, "values_at_max_depth": 8000, "codec_roundtrips": 50000, "topologies_with_direct_edges": 150, "hybrid_inputs": 2500},
-          "thorough": {"constructions": 80000, "depth_values_checked": 500000, "values_at_max_depth": 70000, "codec_roundtrips": 400000, "topologies_with_direct_edges": 1000, "hybrid_inputs": 30000}}
+FLOORS = {"quick": {"constructions": 10000, "depth_values_checked": 60000, "values_at_max_depth": 8000, "codec_roundtrips": 50000, "topologies_with_direct_edges": 150, "hybrid_inputs": 2500, "alias_depth_values_checked": 1200},
+          "thorough": {"constructions": 80000, "depth_values_checked": 500000, "values_at_max_depth": 70000, "codec_roundtrips": 400000, "topologies_with_direct_edges": 1000, "hybrid_inputs": 30000, "alias_depth_values_checked": 10000}}
 
 
 def is_cyclic(n, es):
@@ -115,6 +115,89 @@ def canaries(sh):
 
     sh.canary("class-vs-dict", canon(A(1)) != canon({"x": 1}))
     sh.canary("nonplain-detected", not json_plain({"a": [A(1)]})[0])
+
+
+_ALIAS_N = [0]
+
+
+def alias_case(sh, rng, D):
+    """Recursive TYPE ALIASES (PEP 695 `type X = ...` naming itself), at module level and defined inside a function - there also
+    next to a different module-level alias of the same name. Leaves are Decimals, so a level passed through raw shows as text."""
+    import decimal
+    import sys
+    import types as _types
+
+    _ALIAS_N[0] += 1
+    name = f"vrecalias_{sh.shard}_{_ALIAS_N[0]}"
+    # one container member per alias: a union holding both a mapping and a sequence member is ambiguous (each accepts the other's wire
+    # form), which is the C01/C08 union finding and not a matter of recursion
+    shape = rng.choice(["list[{A}] | decimal.Decimal", "dict[str, {A}] | decimal.Decimal", "tuple[{A}, ...] | decimal.Decimal | None",
+                        "dict[str, list[{A}]] | decimal.Decimal", "None | dict[str, {A}] | decimal.Decimal", "typing.Optional[list[{A}]]"])
+    where = rng.choice(["module", "local", "local-with-namesake"])
+    body = shape.format(A="Tree")
+    if where == "module":
+        src = f"import decimal, typing\ntype Tree = {body}\nROOT = Tree\n"
+    else:
+        namesake = "type Tree = dict[str, Tree] | str\n" if where == "local-with-namesake" else ""
+        src = f"import decimal, typing\n{namesake}def make():\n    type Tree = {body}\n    return Tree\nROOT = make()\n"
+    mod = _types.ModuleType(name)
+    sys.modules[name] = mod
+    try:
+        exec(compile(src, f"/verif/out/generated/{name}.py", "exec"), mod.__dict__)
+        T = mod.ROOT
+        roots = [("alias", T, lambda v: v), ("list[alias]", list[T], lambda v: [v, v]), ("dict[str, alias]", dict[str, T], lambda v: {"r": v})]
+
+        def value(d):
+            leaf = decimal.Decimal(rng.randrange(-50, 50)) / 4 if "Decimal" in shape else None
+            if d <= 0:
+                return leaf if leaf is not None else []
+            kids = [value(d - 1) for _ in range(rng.choice([1, 1, 2]))]
+            opts = []
+            if "dict[str, {A}]" in shape:
+                opts.append({f"k{j}": k for j, k in enumerate(kids)})
+            if "dict[str, list[{A}]]" in shape:
+                opts.append({"k": kids})
+            if "list[{A}]" in shape and "dict[str, list" not in shape:
+                opts.append(list(kids))
+            if "tuple[{A}, ...]" in shape:
+                opts.append(tuple(kids))
+            return rng.choice(opts)
+
+        rlabel, RT, wrap = rng.choice(roots)
+        label = f"recursive alias ({where}) {body}"
+        try:
+            with quiet():
+                um, mm, cdc = typelib.unmarshaller(RT), typelib.marshaller(RT), typelib.codec(RT)
+        except Exception as e:  # noqa: BLE001
+            sh.violation("construction-raised", topology=label, root=rlabel, exc=type(e).__name__, detail=str(e)[:300], module_src=src)
+            return
+        sh.count("alias_constructions")
+        for d in sorted({0, 1, 2, 3, rng.randrange(0, min(D, 40) + 1)}):
+            v = wrap(value(d))
+            sh.eval((label, rlabel, d))
+            rec = dict(topology=label, root=rlabel, depth=d, module_src=src)
+            try:
+                with quiet():
+                    m = mm(v)
+                    u = um(m)
+                    u2 = cdc.decode(cdc.encode(v))
+            except RecursionError:
+                if d <= 100:
+                    sh.violation("unbounded-recursion", frames=-1, **rec)
+                continue
+            except Exception as e:  # noqa: BLE001
+                sh.violation("roundtrip-raised", exc=type(e).__name__, detail=str(e)[:300], value=short(v, 200), **rec)
+                continue
+            sh.count("alias_depth_values_checked")
+            ok, why = json_plain(m)
+            if not ok:
+                sh.violation("level-marshalled-raw", where=why, value=short(v, 200), **rec)
+            elif not same(u, v):
+                sh.violation("level-not-restored", value=short(v, 300), observed=short(u, 300), **rec)
+            elif not same(u2, v):
+                sh.violation("codec-level-not-restored", value=short(v, 300), observed=short(u2, 300), **rec)
+    finally:
+        sys.modules.pop(name, None)
 
 
 def run_shard(sh):
@@ -241,5 +324,11 @@ def run_shard(sh):
         finally:
             tp.drop()
 
-    sh.run_cases(len(mine), case)
+    def both(i):
+        case(i)
+        if i % 3 == 0:
+            clear_typelib_caches(also_typing=True)
+            alias_case(sh, case_rng(sh, i, "alias"), D)
+
+    sh.run_cases(len(mine), both)
     steps.stop()
